@@ -272,7 +272,7 @@ def role_cases(rng, tier, stats=None, quick_share=0.4, all_roles=True):
 # suites
 # ------------------------------------------------------------------------------------------------
 
-MAX_EST_ROWS = 4000
+MAX_EST_ROWS = pipes.MAX_EST_ROWS
 
 
 def est_rows(case):
